@@ -40,9 +40,9 @@ CLAIMS = {
                 note="Numerical phi/z values of the position accessors and the physical correctness of table entries / run-number thresholds are not decided.",
                 technique="constant-table analysis + dispatch-partition analysis of switchInt/compare chains + guard atoms"),
     "C09": dict(level="proof", design="§5 C09",
-                text="Event assembly (MainEvent::try_from_banks, timestamp and the physics functions they reach): every MIR Assert, panicking std call, explicit panic and loop is discharged as in C01, using constructor-census type invariants and three audited implications (Some-unless-empty, member lookup, table values); detector callees are delegated to C01 (inputs unconstrained there). Reconstruction kernels (avalanches, vertex): the same obligations are collected; the kernel functions that are fully discharged today (committed list) must stay fully discharged, the others are reported as a census of undecided sites; result discipline of try_from_banks.",
-                note="Proof level holds for event assembly only. In the kernels the float pipeline (Cholesky/argmin unwraps, partial_cmp, NaN asserts) is a census of undecided sites, and 81 integer/index sites in 21 kernel functions (loop-carried indices, table-shape dependent lookups, values flowing through local collections) are undecided by this analysis: no panic-freedom claim is made for avalanches()/vertex().",
-                technique="abstract interpretation of MIR (guard atoms + interval/Fourier-Motzkin prover) with constructor-census type invariants; obligation census for the kernels"),
+                text="Event assembly (MainEvent::try_from_banks, timestamp and the physics functions they reach): every MIR Assert, panicking std call, explicit panic and loop is discharged as in C01, using constructor-census type invariants and three audited implications (Some-unless-empty, member lookup, table values); detector callees are delegated to C01 (inputs unconstrained there). Reconstruction kernels (avalanches, vertex): the same obligations are collected; the kernel functions that are fully discharged today (committed list) must stay fully discharged; for the others the undischarged integer/index/unwrap sites are counted per function and class on the pinned tree and a count above the committed census is reported (a discharged site stays discharged); the pad centroid is only computed for a strict local maximum (no ln(1)=0 in the denominator, hence no NaN z reaching DriftTables::at); result discipline of try_from_banks.",
+                note="Proof level holds for event assembly only. In the kernels the float pipeline (Cholesky/argmin unwraps, partial_cmp, NaN asserts) is a census of undecided sites, and 63 integer/index sites in 19 kernel functions (loop-carried indices, table-shape dependent lookups, values flowing through local collections) are undecided by this analysis: no panic-freedom claim is made for avalanches()/vertex().",
+                technique="abstract interpretation of MIR (guard atoms + interval/Fourier-Motzkin prover) with constructor-census type invariants; per-function obligation census for the kernels; dominating-guard comparison for the centroid"),
     "C10": dict(level="other", design="§5 C10",
                 text="Dataflow-shape rules on try_from_banks: slot index term = position map of the packet's own (board,channel)/(board,chip,channel); name/payload agreement guards; duplicate guards dominate stores; calibration expression (elem - baseline) * gain after skip(delay) with same-kind lookups at the same position; bank-kind action table; TRG timestamp pass-through.",
                 note="Numerical equality of samples follows from the expression shape and IEEE arithmetic (not separately analysed); calibration file contents trusted.",
@@ -52,8 +52,8 @@ CLAIMS = {
                 note="Bit-for-bit float reproducibility given identical operation order is a hardware/libm property (trusted).",
                 technique="type-resolved call census + sink classification + loop-carried-state analysis"),
     "C13": dict(level="other", design="§5 C13",
-                text="Necessary structural conditions of the rotation/mirror symmetry, decided exhaustively on the finite index domains: complete input/output tables of wire_to_pad_column (256 wires), pad_column_to_wires (32 columns), range_to_indices/range_to_len (all 65k block descriptors) and TpcPadRow::z (576 rows), obtained by evaluating the formulas of every return path; rotation equivariance / inverse / cyclic-order / antisymmetry relations checked on those tables; label and column wiring of avalanches(), wire_range_deconvolution, y_matrix by term shape; symbolic shift-invariance (Toeplitz) and symmetry of the induction-matrix index; ring-distance coupling of a full-ring block.",
-                note="Bit-identical equivariance of the floating-point kernels, the seam merge inside contiguous_ranges and the mirror image of the pad centroid are NOT decided. Known finding F7: a block covering all 256 wires is solved with a Toeplitz (non-circulant) induction matrix, so the full-ring case of the property fails (KNOWN-FINDING line; demo findings/f7_full_ring_rotation.rs).",
+                text="Necessary structural conditions of the rotation/mirror symmetry, decided exhaustively on the finite index domains: complete input/output tables of wire_to_pad_column (256 wires), pad_column_to_wires (32 columns), range_to_indices/range_to_len (all 65k block descriptors) and TpcPadRow::z (576 rows), obtained by evaluating the formulas of every return path; rotation equivariance / inverse / cyclic-order / antisymmetry relations checked on those tables; label and column wiring of avalanches(), wire_range_deconvolution, y_matrix by term shape; symbolic shift-invariance (Toeplitz) and symmetry of the induction-matrix index; ring-distance coupling of a full-ring block; the three-row window of pad_hits_at_t (seeds, one-row slide on every iteration, hit built from the window) by dominance and reaching definitions.",
+                note="Bit-identical equivariance of the floating-point kernels, the scan loop of contiguous_ranges and the mirror image of the centroid formula in floating point are NOT decided. Known finding F7: a block covering all 256 wires is solved with a Toeplitz (non-circulant) induction matrix, so the full-ring case of the property fails (KNOWN-FINDING line; demo findings/f7_full_ring_rotation.rs).",
                 technique="finite-domain evaluation of extracted path formulas (complete function tables) + symbolic substitution on index polynomials + def-use term shape"),
     "C14": dict(level="other", design="§5 C14",
                 text="NaN-guard dominance: divisions by h in Helix::closest_t dominated by the |h| >= eps edge; collinearity and theta==0 guards in the initial-guess code; constant agreement min cluster size >= 3; Track::try_from error discipline; t range (C16).",
@@ -64,9 +64,9 @@ CLAIMS = {
                 note="Partition/conservation over all multisets is NOT decided (dynamic container reasoning).",
                 technique="who-may-construct census + dominance + constant-argument check"),
     "C16": dict(level="other", design="§5 C16",
-                text="all-returns analysis of Helix::closest_t (atan2 or clamp(-PI,PI)); field writers of Track.t_inner/t_outer and VertexInfo.tracks are closest_t results.",
-                note="Decides 'in [-pi,pi] or NaN'; never-NaN and global minimality are NOT decided.",
-                technique="all-returns provenance + field-writer census"),
+                text="all-returns analysis of Helix::closest_t (atan2 under |h| < eps, else clamp(-PI,PI) of the stationary-point expression); the Kepler mechanism (mean anomaly, eccentricity from the distance to the helix axis, residual, Newton step, stop criterion, start values) equals the stationarity condition of the distance; field writers of Track.t_inner/t_outer and VertexInfo.tracks are closest_t results on the right helix and the fitted position.",
+                note="Decides 'in [-pi,pi] or NaN' and 'the equation solved is the stationarity condition'; never-NaN, convergence of the Newton iteration and global minimality within 1e-9 m are NOT decided.",
+                technique="all-returns provenance with dominating guards + field-writer census + comparison of extracted formulas (helpers expanded, role vocabulary) with the derived equation"),
     "C18": dict(level="other", design="§5 C18",
                 text="Guard/value tables of DriftTables::at, DriftTable::at and SpacePoint::try_from (range guards with strictness and error variants, slice and bracket choice, linear interpolation, phi - correction), z used only through abs() (non-interference), and the clauses that depend on the embedded drift table itself (ascending bounds and times, non-increasing radius, < 0.5 mm step per 8 ns, non-negative correction), read from the byte constant the table is deserialised from.",
                 note="Known finding F6: 135 adjacent knots of the embedded table differ by 0.5 mm or more (reported as KNOWN-FINDING lines). Ulp-level interpolation arithmetic is not analysed.",
@@ -76,7 +76,7 @@ CLAIMS = {
                 note="Byte-identical output across thread counts rests on rayon's ordering contract (trusted); lz4/CSV formatting not analysed.",
                 technique="pipeline-shape analysis over resolved iterator/rayon calls + all-returns + dominance"),
     "C20": dict(level="other", design="§5 C20",
-                text="Validate-before-write dominance (File::create after the collect ? of all boards; ensure!(input.is_empty()), epoch-0 marker, top-bit guard), chronobox_time accept atoms and formula, stream assembly (event id, bank name, BTreeMap), element conservation in the row loop (split_last arms), row fields.",
+                text="Validate-before-write dominance (File::create after the collect ? of all boards; ensure!(input.is_empty()), epoch-0 marker, top-bit guard), chronobox_time accept atoms and formula, stream assembly (event id, bank name as the only condition on an appended bank, BTreeMap), element conservation in the row loop (split_last arms), row fields.",
                 note="Equality with true edge times over all hardware histories is NOT decided.",
                 technique="CFG dominance + term-shape comparison + pattern-arm conservation"),
 }
